@@ -153,10 +153,16 @@ function show() {
   content.dirty = false;
 }
 
+// a cursor position the application asked for may lie outside the page (it
+// is hidden then), and after a resize the old one may lie outside the new page
+function cursorOnPage() {
+  return cx >= 0 && cy >= 0 && cx < width && cy < height;
+}
+
 function showCursor(x, y) {
   content.dirty = true;
 
-  if (!(cx < 0 || cy < 0)) {
+  if (cursorOnPage()) {
     // if original position is a valid cursor position
     content.data[cy].previous = null;
     if (content.data[cy].data[cx].classList) {
@@ -171,7 +177,7 @@ function showCursor(x, y) {
 function displayCursor() {
   content.dirty = true;
 
-  if (!(cx < 0 || cy < 0)) {
+  if (cursorOnPage()) {
     // if new position is a valid cursor position
     content.data[cy].previous = null;
 
@@ -196,7 +202,7 @@ function setCursorStyle(newClass, newColor) {
     return;
   }
 
-  if (!(cx < 0 || cy < 0)) {
+  if (cursorOnPage()) {
     // mark cursor row as dirty; new class has been applied to (cx, cy)
     content.dirty = true;
     content.data[cy].previous = null;
